@@ -10,7 +10,9 @@ A *shape* describes where node labels ('n') and edge IDs ('e') occur in a result
 `norm(shape, value, fn, fe)` returns a canonical nested tuple with labels mapped through fn / fe.
 """
 import math
+import signal
 import warnings
+from collections import Counter
 
 import numpy as np
 
@@ -169,12 +171,47 @@ def _dup(H):
     return (len(D), ok, frozenset(e for e in mem if any(e in c for c in multi)) if ok else frozenset(D))
 
 
+class NoAnswer(BaseException):
+    """the CPU budget of one measure expired (not an Exception: nothing in the library or the harness may swallow it)"""
+
+
+def _vt_alarm(signum, frame):
+    raise NoAnswer()
+
+
+# Every measure is a terminating computation on <= 7 nodes / 7 edges and answers within milliseconds.  A call that has
+# not answered after GUARD["s"] seconds of CPU time of THIS process (ITIMER_VIRTUAL: a loaded host cannot trip it) is
+# repeated once with five times the budget; a second expiry is the value ('$err', 'no-answer'), which the check reports
+# as the failure class no-answer-within-cpu-budget (never as "raises the same exception on both sides").  After
+# GUARD["cap"] confirmed expiries a measure is not evaluated again in this run (DEAD; the shrinker sets "force").
+GUARD = {"s": 2.0, "retry": True, "cap": 2, "force": False}
+DEAD = Counter()
+NO_ANSWER = ("$err", "no-answer")
+
+
+def _timed(f, H, seconds):
+    old = signal.signal(signal.SIGVTALRM, _vt_alarm)
+    try:
+        signal.setitimer(signal.ITIMER_VIRTUAL, seconds)
+        try:
+            return f(H)
+        finally:
+            signal.setitimer(signal.ITIMER_VIRTUAL, 0)
+    finally:
+        signal.signal(signal.SIGVTALRM, old)
+
+
 def _quiet(f):
     def g(H):
         with warnings.catch_warnings():
             warnings.simplefilter("ignore")
             with np.errstate(all="ignore"):
-                return f(H)
+                try:
+                    return _timed(f, H, GUARD["s"])
+                except NoAnswer:
+                    if not GUARD["retry"]:
+                        raise
+                return _timed(f, H, 5 * GUARD["s"])
     return g
 
 
@@ -405,8 +442,14 @@ OBS = [
 def observe(H, fn, fe):
     out = {}
     for site, label, shape, tol, f in OBS:
+        if DEAD["obs:" + label] >= GUARD["cap"]:
+            out[label] = NO_ANSWER
+            continue
         try:
             out[label] = norm(shape, f(H), fn, fe)
+        except NoAnswer:
+            out[label] = NO_ANSWER
+            DEAD["obs:" + label] += 1
         except Exception as ex:  # noqa
             out[label] = ("$err", type(ex).__name__)
     return out
@@ -431,8 +474,14 @@ def evaluate(H, fn, fe, labels=None, skip_unorderable=False, skip_flags=()):
             continue
         if skip & flags:
             continue
+        if DEAD[label] >= GUARD["cap"] and not GUARD["force"]:
+            continue
         try:
             out[label] = norm(shape, f(H), fnl, fel)
+        except NoAnswer:
+            out[label] = NO_ANSWER
+            if not GUARD["force"]:
+                DEAD[label] += 1
         except AssertionError:
             raise
         except Exception as ex:  # noqa
